@@ -27,7 +27,7 @@ PROPERTY = 'C02'
 TECHNIQUE = 'symbolic execution of the real eval-mode MPS forward, export and exported network on z3-real coefficients and inputs; per precision assignment: syntactic identity of the output terms, else an unsat equivalence query; exported precisions vs summary'
 FUNCTIONS_ENCODED = ['MPSPerLayerQtz.forward/sample_alpha_sm', 'STEArgmax', 'MPSConv2d/MPSConv1d/MPSLinear/MPSIdentity/MPSAdd.forward/export/selected_*', 'QuantConv2d/QuantLinear/QuantIdentity/QuantAdd forward',
                      'PACTActSTE.forward', '_min_max_quantize', 'QuantizerBias.forward', 'mps/graph.py convert(export), register_in_mps_quantizers, build_shared_mps_qtz_map (natively)', 'MPS.summary/export']
-BOUNDS = {'quick': 'MD (plain, +dw, +BN), MA (residual add), ML, M1D; per-layer search w=(2,8) a=(4,8); 3x3 / 2x2 images, 2 channels; temperature 1; Gumbel flag on/off (irrelevant in eval)',
+BOUNDS = {'quick': 'MD (plain, +dw, +BN), MA (residual add), ML, M1D; per-layer search w=(2,8) a=(4,8); 3x3 / 2x2 images, 2 channels; temperature 1; Gumbel flag on/off (irrelevant in eval); M1A (1D residual, two Conv1d with bias sharing one weight quantizer); ML / MA with the coefficients written through .data / in place into a model that was already evaluated',
           'thorough': 'precision tuples (2,4,8), (8,2), (4,); MD with pooling / 3 channels / two linear layers; temperatures {0.05, 1, 20}'}
 OUTSIDE = ['per-channel weight search (not claimed by the statement)', 'CUDA', 'float32 round-off inside one quantiser call on symbolic activations (exact reals there; both sides run the same quantiser objects)']
 ASSUMPTIONS = ['arg-max margin >= 0.05', 'inputs within [0, 8] (the input quantiser clips anyway)', 'dyadic weights / BatchNorm statistics']
